@@ -147,6 +147,8 @@ def gen_cfg_v2(rng):
     yml = None
     if rng.random() < 0.3:
         yml = [rng.choice(pool) for _ in range(rng.randrange(1, 4))]
+        # the same module under a second spelling (`mods/a` and `mods/a.co` resolve to the same file)
+        yml = [y + ".co" if y in mod_names and rng.random() < 0.3 else y for y in yml]
         if rng.random() < 0.25:
             yml.append(rng.choice(yml))
     return {"kind": "cfg", "version": "2.x", "files": files, "lib": lib, "yml_imports": yml,
@@ -479,14 +481,14 @@ def load_trees(case, vtree, canon_ast):
         obs["base"] = res[0]
         names = (["variant_after_base"] if vtree is not None else []) + ["base_again"]
         obs["seq"] = {n: r for n, r in zip(names, res[1:])}
-        if api == "path":
+        if True:
             try:
                 obs["base"]["world"] = world_of(cfg, libd, mode, version, os.path.join(root, "b"), canon_ast)
             except Exception as e:  # noqa
                 obs["base"]["world_error"] = f"{type(e).__name__}: {e}"[:200]
         if vtree is not None and obs["base"]["outcome"] != "timeout":
             obs["variant"] = in_child_cpu([lambda: _load_in_child(vcfg, vlibd, mode, api, canon_ast, os.path.join(root, "v"))], CPU_LIMIT, WALL_LIMIT)[0]
-            if api == "path":
+            if True:
                 try:
                     obs["variant"]["world"] = world_of(vcfg, vlibd, mode, version, os.path.join(root, "v"), canon_ast)
                 except Exception as e:  # noqa
@@ -623,7 +625,7 @@ def model_requests_cfg(case, obs):
         o = obs.get(w)
         if o and "world" in o:
             wd = o["world"]
-            reqs.append({"m": "C13.imports", "paths": wd["paths"], "files": [[i, x] for i, x in enumerate(wd["fimports"])], "init": wd["init"], "fuel": FUEL})
+            reqs.append({"m": "C13.imports", "paths": wd["paths"], "files": [[i, x] for i, x in enumerate(wd["fimports"])], "init": wd["init"], "fuel": FUEL, "api": case.get("api", "path")})
     return reqs
 
 
@@ -635,14 +637,16 @@ def compare_cfg(case, obs, mouts):
             continue
         m = mouts[i]
         i += 1
-        d = _compare_one(o, m, w)
+        d = _compare_one(o, m, w, case.get("api", "path"))
         if d:
             return d
     return None
 
 
-def _compare_one(o, m, what):
+def _compare_one(o, m, what, api="path"):
     wd = o["world"]
+    if api == "content" and "err" in m and m["err"][0] == "parse" and wd["files"][m["err"][1]][0].endswith("config/main.co") and o["outcome"] == "raised":
+        return None  # from_content parses the main content outside the wrapper: any parser exception
     out = o["outcome"]
     pre = f"import loops ({what} tree): "
     if m.get("closed") is not True:
